@@ -193,6 +193,8 @@ QUICK = {
     'two-types-apart': sh(types=[T1, T2], events=[('learn', 'x', 4), ('learn', 'z', 1)], steps=5),
     'refresh': sh(events=[('learn', 'x', 4), ('refresh', 'x', 1)], steps=5),
     'goodbye': sh(events=[('learn', 'x', 4), ('goodbye', 'x', 1)], steps=4),
+    'refresh-after-first-attempt': sh(events=[('learn', 'x', 4), ('refresh', 'x', 2)], steps=5),
+    'goodbye-after-first-attempt': sh(events=[('learn', 'x', 4), ('goodbye', 'x', 2)], steps=4),
     'refresh-recased': sh(events=[('learn', 'x', 4), ('refresh', 'xu', 1)], steps=5),
     'goodbye-recased': sh(events=[('learn', 'x', 4), ('goodbye', 'xu', 1)], steps=4),
     'two-records-close-fixed-ttl': sh(events=[('learn', 'x', 5), ('learn', 'y', 0)], steps=6, ttl_fixed=1125, gap_max=9000),
